@@ -118,8 +118,8 @@ Section Tg.
   Variables D C : list ctydecl.
   Variable stF : symtab.
   Hypothesis HtyF : forall t, ty_names_ok t = true -> has_inst_p stF t -> tyd D C (compile_ty t) = true.
-  Hypothesis HdefF : forall d, In d fs ->
-    exists d', ffind_def q (fdname d) = Some d' /\ fdctx d' = fdctx d /\ fdret d' = fdret d.
+  Hypothesis HdefF : forall f d, FunTyping.find_def fs f = Some d ->
+    exists d', ffind_def q f = Some d' /\ fdctx d' = fdctx d /\ fdret d' = fdret d.
 
   Notation tg := (tg q D C).
   Notation tg_args := (tg_args q D C).
@@ -335,13 +335,13 @@ Section Tg.
       destruct (aget (st_defs st) f) as [[types ret]|] eqn:Ed; [|discriminate].
       rewrite (t_df _ _ _ Tb) in Ed. destruct (FunTyping.find_def fs f) as [d|] eqn:Ef; [|discriminate]. simpl in Ed. inversion Ed; subst.
       assert (Hdin : In d fs /\ fdname d = f).
-      { unfold FunTyping.find_def in Ef; apply find_some in Ef. destruct Ef as [? Ef]. apply String.eqb_eq in Ef. tauto. }
+      { pose proof Ef as Ef'. unfold FunTyping.find_def in Ef'; apply find_some in Ef'. destruct Ef' as [? Ef']. apply String.eqb_eq in Ef'. tauto. }
       destruct Hdin as [Hdin Hdn].
       destruct (PW_defs _ _ W d Hdin) as [Hmd Hmr].
       apply cbind_ok in Hk. destruct Hk as [st1 [H1 Hk]].
       apply cbind_ok in Hk. destruct Hk as [[args' st2] [H2 Hk]]. inversion Hk; subst.
       destruct (check_equality_sound ts fs W _ _ _ _ HT Hmr Tb I H1) as [Heq [_ [I1 [S1 [G1 Hi1]]]]].
-      destruct (HdefF d Hdin) as [d' [Hfd [Hcx Hrt]]].
+      destruct (HdefF _ d Ef) as [d' [Hfd [Hcx Hrt]]].
       assert (K : tg_args G args' (compile_ctx (fdctx d)) = true).
       { eapply (check_args_ptg args H eager (fdctx d) st1 ctx args' st' G); eauto using tables_same.
         intros X. apply Hcm. simpl. rewrite any_calls_main_eq. rewrite X. apply orb_true_r. }
